@@ -10,6 +10,13 @@ import (
 
 func (w *World) Drop(vid int) {
 	if vid >= 0 && vid < len(w.views) {
+		if b := w.views[vid]; b != nil {
+			// the header may be collected and its address reused by a later allocation (for instance by a
+			// buffer the pool allocates): forget the address, or that buffer would be taken for this view
+			if w.hdr[b.HeaderPtr()] == vid {
+				delete(w.hdr, b.HeaderPtr())
+			}
+		}
 		w.views[vid] = nil
 	}
 }
